@@ -858,7 +858,7 @@ func replayC20(env *run.Env, rep *ev.Reporter, dir string) int {
 // Inputs that reproduce findings listed in known_findings.json.
 func c20Reproducers() []*c20Input {
 	asaDev := "interface Ethernet0/1\n nameif inside\n"
-	return []*c20Input{
+	l := []*c20Input{
 		{Model: "ASA", Prog: "drc", Family: "R", Origin: "repro:asa-truncated-acl",
 			Device: asaDev,
 			Files:  map[string]string{"router": "access-list x extended permit tcp object-group\naccess-group x in interface inside\n"}},
@@ -876,4 +876,43 @@ func c20Reproducers() []*c20Input {
 			Device: asaDev,
 			Files:  map[string]string{"router": "", "router.info": "{\"model\": \"ASA\",\n"}},
 	}
+	// Regression inputs of repaired crash sites (known_findings.json,
+	// status fixed): they stay in every tier.
+	panos := func(groups, rules string) string {
+		return `<config><devices><entry name="localhost.localdomain"><vsys><entry name="vsys2"><display-name>netspoc</display-name>` +
+			`<rulebase><security><rules>` + rules + `</rules></security></rulebase>` +
+			`<address><entry name="IP_10.1.1.1"><ip-netmask>10.1.1.1/32</ip-netmask></entry></address>` +
+			`<address-group>` + groups + `</address-group></entry></vsys></entry></devices></config>` + "\n"
+	}
+	prule := `<entry name="r1"><action>allow</action><from><member>z1</member></from><to><member>z2</member></to><source><member>g1</member></source>` +
+		`<destination><member>any</member></destination><service><member>any</member></service><application><member>any</member></application></entry>`
+	self := `<entry name="g1"><static><member>IP_10.1.1.1</member><member>g1</member></static></entry>`
+	mutual := `<entry name="g1"><static><member>IP_10.1.1.1</member><member>g2</member></static></entry>` +
+		`<entry name="g2"><static><member>IP_10.1.1.1</member><member>g1</member></static></entry>`
+	plain := `<entry name="g1"><static><member>IP_10.1.1.1</member></static></entry>`
+	add := func(model, origin, dev string, files map[string]string) {
+		l = append(l, &c20Input{Model: model, Prog: "drc", Family: "R", Origin: "repro:" + origin, Device: dev, Files: files})
+	}
+	add("PAN-OS", "panos-group-contains-itself-netspoc", panos(plain, prule), map[string]string{"router": panos(self, prule)})
+	add("PAN-OS", "panos-groups-contain-each-other-netspoc", panos(plain, prule), map[string]string{"router": panos(mutual, prule)})
+	add("PAN-OS", "panos-groups-contain-each-other-device", panos(mutual, prule), map[string]string{"router": panos(plain, prule)})
+	add("PAN-OS", "panos-groups-contain-each-other-raw", panos(plain, prule), map[string]string{"router": panos(plain, prule), "router.raw": panos(mutual, "")})
+	add("PAN-OS", "panos-raw-without-devices", panos(plain, prule), map[string]string{"router": panos(plain, prule), "router.raw": "<config></config>\n"})
+	add("PAN-OS", "panos-devices-without-entry", panos(plain, prule), map[string]string{"router": "<config><devices></devices></config>\n"})
+	nsxDev := `{"groups":[{"id":"Netspoc-g0","expression":[{"id":"id","resource_type":"IPAddressExpression","ip_addresses":["10.1.1.1"]}]}],"policies":[]}` + "\n"
+	for i, t := range []string{`{"groups":[null]}`, `{"policies":[null]}`, `{"services":[null]}`, `{"policies":[{"id":"Netspoc-v1","rules":[null]}]}`,
+		`{"groups":[{"id":"Netspoc-g0","expression":[]}]}`, `{"groups":[{"id":"Netspoc-g0","expression":[{"id":"id","resource_type":"IPAddressExpression"}]}]}`,
+		`{"policies":[{"id":"Netspoc-v1","rules":[{"id":"r1","action":"ALLOW","sequence_number":20,"source_groups":["/infra/domains/default/groups/Netspoc-gX"],"destination_groups":["ANY"],"services":["ANY"],"scope":["ANY"],"direction":"OUT"}]}]}`} {
+		add("NSX", fmt.Sprintf("nsx-structure-%d-netspoc", i), nsxDev, map[string]string{"router": t + "\n"})
+		add("NSX", fmt.Sprintf("nsx-structure-%d-device", i), t+"\n", map[string]string{"router": nsxDev})
+	}
+	add("ASA", "asa-route-without-mask", asaDev, map[string]string{"router": "route inside 10.1.1.0\n"})
+	add("ASA", "asa-route-without-gateway", asaDev+"route inside 10.1.1.0 255.255.255.0\n", map[string]string{"router": "route inside 10.1.2.0 255.255.255.0 10.1.1.1\n"})
+	add("IOS", "ios-route-vrf-without-name", "ip route vrf\n", map[string]string{"router": "ip route 10.1.2.0 255.255.255.0 10.1.1.1\n"})
+	add("ASA", "asa-aaa-server-host-without-value", asaDev+"aaa-server LDAP protocol ldap\naaa-server LDAP host\n", map[string]string{"router": ""})
+	add("ASA", "info-null", asaDev, map[string]string{"router": "", "router.info": "null\n"})
+	add("IOS", "ios-duplicate-line-moved", "ip access-list extended a\n permit ip host 10.1.1.1 any\n permit ip host 10.1.1.2 any\ninterface Ethernet0\n ip access-group a in\n",
+		map[string]string{"router": "ip access-list extended a\n permit ip host 10.1.1.2 any\n permit ip host 10.1.1.1 any\n permit ip host 10.1.1.2 any\ninterface Ethernet0\n ip access-group a in\n"})
+	add("ASA", "asa-short-crypto-map-in-raw", asaDev, map[string]string{"router": "", "router.raw": "crypto map x 10 set\n"})
+	return l
 }
